@@ -462,13 +462,17 @@ class Queue(Greenlet):
         for i, entry in enumerate(self.queued):
             timestamp, entry_id = entry
             if now >= timestamp:
-                self._pool_spawn('store', self._dequeue, entry_id)
                 last_i = i+1
             else:
                 break
         if last_i > 0:
+            # Take the ready entries off the list before spawning: a spawn
+            # into a full pool blocks, and entries may be added meanwhile.
+            ready = self.queued[:last_i]
             self.queued = self.queued[last_i:]
             self.queued_ids = set([id for _, id in self.queued])
+            for _, entry_id in ready:
+                self._pool_spawn('store', self._dequeue, entry_id)
 
     def _wait_store(self):
         while True:
@@ -503,10 +507,11 @@ class Queue(Greenlet):
         self.wake.clear()
         self.queued_lock.acquire()
         try:
-            for entry in self.queued:
-                self._pool_spawn('store', self._dequeue, entry[1])
+            entries = self.queued
             self.queued = []
             self.queued_ids = set()
+            for entry in entries:
+                self._pool_spawn('store', self._dequeue, entry[1])
         finally:
             self.queued_lock.release()
 
